@@ -8,5 +8,32 @@ NOTE = 'bounded sizes as in C02/C04; Tuple with a repeated item is a listed know
 EXPLANATION = LEVEL_TEXT
 TRUSTED = []
 
+VL = ["src/Exception.c", "src/Tuple.c", "src/Num.c", "src/Pointer.c", "src/Function.c", "stubs/throw.c"]
+
+def view_jobs(tier):
+    J = []
+    def add(name, h, defs, funcs, unwind=8, timeout=900, bound=None):
+        J.append(Job("C11.view.%s" % name, "C11", "K3", "Iter/k3.c", h, funcs, link=VL, defines=defs, replace_calls=["exception_throw:cv_throw"], unwind=unwind,
+                     group="view.%s" % name.split(".")[0], also=["C12"], timeout=timeout, case=" ".join(defs), replay="C11_views.c",
+                     bound=bound or "views over abstract underlying iterables of <= 4 elements; Range: start/stop within +-2^32 (+-2^12 for |step| >= 3), one concrete step per obligation set",
+                     assumptions=["underlying iterables are ghost models of the Iter/Len/Get classes (the cursor protocol of the real containers is checked separately)"]))
+    RF = ["Range_Len", "Range_Iter_Init", "Range_Iter_Next", "Range_Iter_Last", "Range_Iter_Prev", "Range_Get"]
+    steps = [1, 2, -1, -2] + ([3, -3, 4, -4, 5, -5, 7] if tier == "thorough" else [3, -3])
+    for st in steps:
+        add("range.step%s" % str(st).replace("-", "m"), "h_range", ["STEP=%d" % st, "RBITS=%d" % (32 if abs(st) <= 2 else 12 if abs(st) == 3 else 10)], RF)
+    for st in [0, 1, -2]:
+        add("range_empty.step%s" % str(st).replace("-", "m"), "h_range_empty", ["STEP=%d" % st], RF)
+    add("slice_arg", "h_slice_arg", [], ["Slice_Arg"])
+    nu = 4
+    for (a, b, c) in [(0, 4, 1), (0, 2, 1), (1, 3, 1), (1, 4, 2), (0, 4, 3), (2, 2, 1), (0, 4, -1), (1, 3, -1), (0, 4, -2)]:
+        add("slice_iter.%d_%d_%s" % (a, b, str(c).replace("-", "m")), "h_slice_iter", ["NU=%d" % nu, "SL_START=%d" % a, "SL_STOP=%d" % b, "SL_STEP=%d" % c],
+            ["Slice_Iter_Init", "Slice_Iter_Next", "Slice_Len"], unwind=10)
+    for (n1, n2) in [(0, 0), (2, 2), (3, 2), (2, 3), (1, 0)]:
+        add("zip.%d_%d" % (n1, n2), "h_zip", ["NU=%d" % n1, "NU2=%d" % n2], ["Zip_Iter_Init", "Zip_Iter_Next", "Zip_Iter_Last", "Zip_Iter_Prev", "Zip_Len", "zip_stack"])
+    for n in [0, 1, 3]:
+        add("filter.%d" % n, "h_filter", ["NU=%d" % n], ["Filter_Iter_Init", "Filter_Iter_Next", "Filter_Iter_Last", "Filter_Iter_Prev"])
+        add("map.%d" % n, "h_map", ["NU=%d" % n], ["Map_Iter_Init", "Map_Iter_Next", "Map_Iter_Last", "Map_Iter_Prev", "Map_Len"])
+    return J
+
 def jobs(tier):
-    return seqcases.array_jobs(tier, "C11") + _C02.table_jobs(tier, "C11") + _C03.tree_jobs(tier, "C11")
+    return view_jobs(tier) + seqcases.array_jobs(tier, "C11") + _C02.table_jobs(tier, "C11") + _C03.tree_jobs(tier, "C11")
